@@ -88,11 +88,80 @@ def check_vectors(chk, tu):
                     run = dict(run)
                     run[Sym('strlen', (strs[k],), 'unsigned long')] = 1
                     run[1] = run.get(1, 0) + 1
+                if not ok:
+                    # not the strlen+memcpy shape (e.g. a hand-written copy loop): decide the bytes that reach guest memory on concrete
+                    # vectors (empty strings, bytes >= 0x80, a long string) instead of the copying idiom
+                    bad = concrete_vector(tu, eps[get_imp][gen]['name'], is_env, n)
+                    chk.expect(not bad, 'R15.1', inst + ':copy', '%s (not the strlen+memcpy shape) on a concrete vector: %s' % (get_imp, bad),
+                               site + ':copy')
+                    continue
                 chk.expect(ok, 'R15.1', inst + ':copy',
                            '%s: string k must be copied with its NUL (strlen+1 bytes) to buffer + sum of the previous sizes and that address '
                            'stored as u32 at pointers + 4k; got copies %r, stores %r' % (get_imp, [(repr(c[0])[:50], c[1], repr(c[2])) for c in copies],
                                                                                       [(s[0], repr(s[1])[:40], repr(s[2])[:50]) for s in stores]),
                            site + ':copy')
+
+
+CONCRETE_STRINGS = ['', 'a', 'caf\xc3\xa9.txt', '\x01\x7f\x80\xff tail', 'K=v', 'x' * 300]
+
+
+def concrete_vector(tu, fname, is_env, n):
+    """run the copy call on concrete strings with a concrete byte-array guest memory; -> first discrepancy or None"""
+    strs = [CONCRETE_STRINGS[(i * 2 + 1) % len(CONCRETE_STRINGS)] if n <= 3 else CONCRETE_STRINGS[i % len(CONCRETE_STRINGS)] for i in range(n)]
+    if n == 3:
+        strs = [CONCRETE_STRINGS[3], CONCRETE_STRINGS[0], CONCRETE_STRINGS[2]]
+    PTRS, BUF, SIZE = 0x40, 0x100, 0x1000
+    data = [0xEE] * SIZE
+    st2 = {}
+
+    def cpy(interp, args, node):
+        d, s_, k = args
+        if not (isinstance(d, Ptr) and isinstance(k, int)):
+            raise pe.PEError('copy with symbolic destination/length')
+        for i in range(k):
+            b_ = (ord(s_[i]) if i < len(s_) else 0) if isinstance(s_, str) else interp.load(s_.c, s_.k + i)
+            interp.store(d.c, d.k + i, b_ & 0xFF)
+        return d
+
+    def i32_store(interp, args, node):
+        m, addr, v = args
+        if not (isinstance(addr, int) and isinstance(v, int)):
+            raise pe.PEError('i32_store with symbolic operands')
+        for i in range(4):
+            data[addr + i] = (v >> (8 * i)) & 0xFF
+        return None
+    leafs = {'memcpy': cpy, '__builtin_memcpy': cpy, 'memmove': cpy, 'i32_store': i32_store,
+             'strcpy': lambda i, a, nd: cpy(i, [a[0], a[1], (len(a[1]) if isinstance(a[1], str) else 0) + 1], nd),
+             'strlen': lambda i, a, nd: len(a[0]) if isinstance(a[0], str) else (_ for _ in ()).throw(pe.PEError('strlen of non-string'))}
+    it = W.make_interp(tu, st2, leafs)
+    it.strict_store_bounds = True
+
+    def setup():
+        st2.clear()
+        W.seed_globals(it, tu, st2, std_table(0), argv=([] if is_env else strs), envp=(strs if is_env else []))
+        st2['memcell']['v']['data'] = Ptr(data, 0)
+        return (fname, [unk('instance'), PTRS, BUF], {})
+    try:
+        paths = it.explore(setup)
+    except pe.PEError as e:
+        raise AnalysisBroken('%s on a concrete vector: %s' % (fname, e))
+    if len(paths) != 1 or paths[0].ret != 0:
+        return '%d paths / return %r' % (len(paths), paths[0].ret if paths else None)
+    want = list([0xEE] * SIZE)
+    off = BUF
+    for k, s_ in enumerate(strs):
+        for i in range(4):
+            want[PTRS + 4 * k + i] = (off >> (8 * i)) & 0xFF
+        for i, ch in enumerate(s_):
+            want[off + i] = ord(ch)
+        want[off + len(s_)] = 0
+        off += len(s_) + 1
+    if data != want:
+        k = [i for i in range(SIZE) if data[i] != want[i]][0]
+        where = 'pointer array' if k < BUF else 'string buffer offset %d' % (k - BUF)
+        return 'guest byte 0x%X (%s) is 0x%02X, expected 0x%02X for the vector %r' % (k, where, data[k] if isinstance(data[k], int) else -1,
+                                                                                    want[k], [x[:12] for x in strs])
+    return None
 
 
 def _norm(f):
@@ -350,6 +419,11 @@ def run(chk):
     check_random(chk, tu)
     check_exit(chk, tu)
     check_spawn(chk, tu)
+    # thread-spawn obtains its instance from instance->newChild(instance) and the spawned thread may spawn again: the generated
+    # NewChild must hand every member of the common record on to the child (rule shared with C06)
+    from . import c06
+    from .. import emit
+    c06.check_common_record(chk, emit.translator_tus(('c.c', 'opcode.c', 'instruction.c'), chk=chk), 'R15.5')
     chk.floor('R15.1', 30)
     chk.floor('R15.2', 12)
     chk.floor('R15.3', 2)
